@@ -52,3 +52,91 @@ Theorem C04_assignment_is_the_specifications sc x v :
   end.
 Proof. exact (assign_is_env_set sc x v). Qed.
 Print Assumptions C04_assignment_is_the_specifications.
+
+(* ---- from the token stream: the tokens of a template with assignments at any nesting position are
+   parsed to the tree TemplateRefine.v is about, whose scope chain the specification prescribes *)
+From Coq Require Import String Lia.
+From TW Require Import GenToken Lexer Parser Pratt StmtParse TemplatePipeline.
+
+Theorem C04_from_tokens_to_scopes ss ns eof fs (data : list (bytes * value)) :
+  wf_ss ss -> Dens ss ns -> ttype eof = T_EOF ->
+  forallb (fun kv : bytes * value => clean (snd kv)) data = true -> nodes_ok ns ->
+  parse_tokens (flats ss ++ [eof]) = ParsedOk (mkProgram (map cnode ns) None [] [] []) /\
+  exists K, forall fm, (K <= fm)%nat ->
+    match run_nodes model_call_spec fs [data] ns with
+    | TOk out SigNormal _ => exists en', eval_program cx0 fm [data] (map cnode ns) [] = Ok (out, en')
+    | TOk _ _ _ => True
+    | TFail => exists ln msg, eval_program cx0 fm [data] (map cnode ns) [] = Fail ln msg
+    | TNoFuel | TUnprintable => True
+    end.
+Proof. exact (template_tokens_render ss ns eof fs data). Qed.
+Print Assumptions C04_from_tokens_to_scopes.
+
+(* non-vacuity: an assignment inside @if does not change what the template sees afterwards, and the
+   name it introduced is gone (reading it fails the render) *)
+Example C04_lexed_assignments_scope :
+  let ns := [NAssign (bs "x") (XInt 1);
+             NIf (XBool true) [NAssign (bs "x") (XInt 2); NAssign (bs "y") (XInt 5); NPrint (XVar (bs "y"))] [] None;
+             NPrint (XVar (bs "x"))]%string in
+  exists ss eof,
+    lex_all (bs "{{ x = 1 }}@if(true){{ x = 2 }}{{ y = 5 }}{{ y }}@end{{ x }}"%string) = Some (flats ss ++ [eof]) /\
+    ttype eof = T_EOF /\ wf_ss ss /\ Dens ss ns /\ nodes_ok ns /\
+    run_nodes model_call_spec 20 [[]] ns = TOk (bs "51"%string) SigNormal [[(bs "x"%string, VInt 1)]] /\
+    run_nodes model_call_spec 20 [[]] (ns ++ [NPrint (XVar (bs "y"%string))]) = TFail.
+Proof.
+  intro ns.
+  destruct (lex_all (bs "{{ x = 1 }}@if(true){{ x = 2 }}{{ y = 5 }}{{ y }}@end{{ x }}"%string)) as [ts|] eqn:E; [|vm_compute in E; discriminate E].
+  vm_compute in E. injection E as <-.
+  match goal with |- exists ss eof, Some (?l1 :: ?x1 :: ?e1 :: ?one :: ?r1 :: ?kw :: ?lp :: ?tr :: ?rp ::
+                                         ?l2 :: ?x2 :: ?e2 :: ?two :: ?r2 :: ?l3 :: ?y3 :: ?e3 :: ?five :: ?r3 ::
+                                         ?l4 :: ?y4 :: ?r4 :: ?en :: ?l5 :: ?x5 :: ?r5 :: ?eoft :: nil) = _ /\ _ =>
+    exists [TAssign l1 x1 e1 (CAtom one); TClose r1;
+            TIf kw lp rp en (CAtom tr)
+                [TAssign l2 x2 e2 (CAtom two); TClose r2; TAssign l3 y3 e3 (CAtom five); TClose r3; TCode l4 r4 (CAtom y4)] [] None;
+            TCode l5 r5 (CAtom x5)], eoft
+  end.
+  split; [reflexivity|]. split; [reflexivity|].
+  split.
+  { cbn [wf_ss wf_s wf wf_list_with llev rlev]. unfold tprec, INF. cbn [ttype].
+    repeat split; try reflexivity; try discriminate; try (vm_compute; lia). }
+  split.
+  { subst ns.
+    apply DsCons; [apply DAssign'; [reflexivity|reflexivity|cbn; repeat split]|]. apply DsClose.
+    apply DsCons; [|apply DsCons; [apply DCode; cbn; repeat split|apply DsNil]].
+    apply DIf.
+    - reflexivity.
+    - cbn. repeat split.
+    - apply DsCons; [apply DAssign'; [reflexivity|reflexivity|cbn; repeat split]|]. apply DsClose.
+      apply DsCons; [apply DAssign'; [reflexivity|reflexivity|cbn; repeat split]|]. apply DsClose.
+      apply DsCons; [apply DCode; cbn; repeat split|apply DsNil].
+    - apply DeNil.
+    - apply DlNone. }
+  split; [subst ns; cbn; repeat split; lia|].
+  split; vm_compute; reflexivity.
+Qed.
+
+(* ---- from the source BYTES: a source that spells a checked list of items (Proofs/LexRound.v) whose
+   tokens are those of ss, where ss spells the specification template ns, is lexed to those tokens,
+   parsed to the program of ns and rendered by the model of EvaluateString as the specification says *)
+From TW Require Import Render LexRound.
+
+Theorem C04_from_source_bytes_to_output its ss ns eof fs gd (data : list (bytes * value)) :
+  source_ok its = true -> place (spell its) 0 its = flats ss ++ [eof] -> wf_ss ss -> Dens ss ns ->
+  env_from_map gd = EnvOk [data] ->
+  forallb (fun kv : bytes * value => clean (snd kv)) data = true -> nodes_ok ns ->
+  lex_all (spell its) = Some (flats ss ++ [eof]) /\
+  parse_source (spell its) = ParsedOk (mkProgram (map cnode ns) None [] [] []) /\
+  exists K, (K <= eval_fuel)%nat ->
+    match run_nodes model_call_spec fs [data] ns with
+    | TOk out SigNormal _ => evaluate_string cx0 (spell its) gd = RenderOk out
+    | TOk _ _ _ => True
+    | TFail => exists ln msg, evaluate_string cx0 (spell its) gd = RenderErr ln msg
+    | TNoFuel | TUnprintable => True
+    end.
+Proof. exact (source_renders its ss ns eof fs gd data). Qed.
+Print Assumptions C04_from_source_bytes_to_output.
+
+Example C04_source_in_the_domain_and_rendered :
+  in_domain (bs "{{ x = 1 }}@if(true){{ x = 2 }}{{ y = 5 }}{{ y }}@end{{ x }}"%string) = true /\
+  evaluate_string cx0 (bs "{{ x = 1 }}@if(true){{ x = 2 }}{{ y = 5 }}{{ y }}@end{{ x }}"%string) [] = RenderOk (bs "51"%string).
+Proof. split; vm_compute; reflexivity. Qed.
